@@ -4,14 +4,14 @@ from ..sim import Monitor
 from .common import all_demes, fb, flat, gb
 
 PROP = "C07"
-N_QUICK = 3000
-N_THOROUGH = 60000
+N_QUICK = 7000
+N_THOROUGH = 200000
 RULE = ("Plans: 1-3 levels with any engine per level incl. a custom deme class registered through "
         "config_class_to_deme_class, both sprout factories and user-composed mechanisms (incl. the local-method "
         "generator), hibernation on/off, LSCs that stop parents, stop-signal and LSC-verdict faults.")
 NONTRIVIAL_RULE = ">= 1 sprouting round with >= 1 new deme whose seed provenance was judged, and >= 2 boundaries structurally judged"
 EXPECTED_PROBES = ["c07-structure-judged", "c07-seeds-provenance-judged", "c07-new-child-judged", "c07-seed-in-child-population",
-                   "c07-custom-deme-seen", "c07-three-levels-populated", "c07-local-method-seed-judged"]
+                   "c07-custom-deme-seen", "c07-three-levels-populated", "c07-local-method-seed-judged", "c07-derived-custom-config-judged"]
 ASSUMPTIONS = ["only new config classes are registered in config_class_to_deme_class (as documented); overriding a built-in mapping is not exercised"]
 
 CLS = {"ea": "EADeme", "de": "DEDeme", "shade": "SHADEDeme", "cma": "CMADeme", "local": "LocalDeme", "lhs": "LHSDeme",
@@ -23,7 +23,15 @@ PROFILE = P.profile(levels_w={1: 1, 2: 5, 3: 5}, root_engines={"custom": 1.5}, m
 
 
 def gen(seed, tier):
-    return P.gen_plan(seed, PROFILE, PROP)
+    pl = P.gen_plan(seed, PROFILE, PROP)
+    # a registered custom config class *derived from a built-in config* (with its own deme class)
+    if "levels" in pl and seed % 4 == 0:
+        for l in pl["levels"]:
+            if l["engine"] == "ea":
+                l["custom_derived"] = True
+        if any(l.get("custom_derived") for l in pl["levels"]):
+            pl["entry"] = "tree"  # hms() has no config_class_to_deme_class parameter
+    return pl
 
 
 class C07Monitor(Monitor):
@@ -37,6 +45,9 @@ class C07Monitor(Monitor):
 
     def _expected_cls(self, level):
         if "levels" in self.w.plan:
+            if self.w.plan["levels"][level].get("custom_derived"):
+                self.w.probe("c07-derived-custom-config-judged")
+                return "CustomEADeme"
             return CLS[self.w.plan["levels"][level]["engine"]]
         return ["EADeme", "CMADeme"][level]
 
@@ -153,7 +164,7 @@ class C07Monitor(Monitor):
                         self.violate("child-started-at", {"child": c._id, "started_at": c._started_at,
                                                           "metaepoch_count": tree.metaepoch_count})
                     cls = type(c).__name__
-                    if cls in ("EADeme", "DEDeme", "SHADEDeme") and cs is not None:
+                    if cls in ("EADeme", "CustomEADeme", "DEDeme", "SHADEDeme") and cs is not None:
                         first = flat(c)[0] if flat(c) else []
                         w.probe("c07-seed-in-child-population")
                         if not any(gb(i.genome) == gb(cs.genome) for i in first):
